@@ -17,15 +17,15 @@ import (
 // and occupies 20 + totalSize bytes.
 
 type RFrame struct {
-	Raw    []byte
-	Flags  byte
-	Reply  byte
-	Type   int
-	ID     uint32
-	Err    uint32
-	Total  uint32
-	DSize  uint32
-	Fields []RField
+	Raw        []byte
+	Flags      byte
+	Reply      byte
+	Type       int
+	ID         uint32
+	Err        uint32
+	Total      uint32
+	DSize      uint32
+	Fields     []RField
 	WellFormed bool // param count and field sizes are consistent with totalSize
 }
 type RField struct {
@@ -110,16 +110,16 @@ func refEncode(typ int, id uint32, fields ...RField) []byte {
 // scripted connection: the server side reads exactly the chunks the client script delivers.
 
 type WireClient struct {
-	env    *Env
-	c      net.Conn // client end of a net.Pipe
-	mu     sync.Mutex
-	rx     []byte // every byte the server wrote to us
-	closed bool   // server closed its end (EOF seen)
-	done   chan struct{}
+	env     *Env
+	c       net.Conn // client end of a net.Pipe
+	mu      sync.Mutex
+	rx      []byte // every byte the server wrote to us
+	closed  bool   // server closed its end (EOF seen)
+	done    chan struct{}
 	srvDone chan struct{}
-	srvErr error
-	Addr   string
-	nextID uint32
+	srvErr  error
+	Addr    string
+	nextID  uint32
 }
 
 var procOutboxOnce = map[*hotline.Server]bool{}
